@@ -18,7 +18,7 @@ from types import CodeType, ModuleType
 from typing import TYPE_CHECKING, Callable, Dict, Generator, List, Optional, Tuple
 
 from pyccolo.ast_bookkeeping import AstBookkeeper
-from pyccolo.emit_event import _TRACER_STACK
+from pyccolo.emit_event import _TRACER_STACK, SkipAll
 from pyccolo.extra_builtins import GUARD_PREFIX
 from pyccolo.trace_events import TraceEvent
 from pyccolo.utils import clone_function
@@ -207,13 +207,22 @@ class TraceLoader(SourceFileLoader):
     def get_filename(self, name: Optional[str] = None) -> str:
         source_path = super().get_filename(name)
         for tracer in reversed(self._tracers):
-            source_path = tracer._emit_event(
+            new_path = tracer._emit_event(
                 TraceEvent.before_import.value,
                 None,
                 sys._getframe(),
                 ret=source_path,
                 qualified_module_name=name,
             )
+            if (
+                type(new_path) is tuple
+                and len(new_path) == 2
+                and new_path[0] is SkipAll
+            ):
+                # as in the stack loop: SkipAll ends the remaining tracers; the value left is the path
+                source_path = new_path[1]
+                break
+            source_path = new_path
         return source_path
 
     def _register_guards(self, code: CodeType) -> None:
